@@ -597,6 +597,21 @@ func (c *Ctx) c01WhoMutates() {
 					if ix, ok := l.(*ast.IndexExpr); ok {
 						target, what = ix.X, "insert"
 					}
+					// the registry itself is one map for the life of the instance: replacing it (to shrink it, to reset it) while
+					// builds are in flight drops their entries — the next Get of such a key elects a second owner
+					if sel, ok := ast.Unparen(l).(*ast.SelectorExpr); ok {
+						if s := info.Selections[sel]; s != nil && s.Kind() == types.FieldVal {
+							if fv, _ := s.Obj().(*types.Var); fv != nil && fname(fv) == "keyLocks" && !constructors[name] && !c.constructionOnly()(fn) {
+								owner := namedTypeName(s.Recv())
+								if o, ok := cn.fieldOwner[fv.Origin()]; ok {
+									owner = o
+								}
+								if owner == "Failover" || owner == "FailoverOf" {
+									r.Bad("R01.5", name, "registry-replaced", c.Pos(x.Pos()), "the keyLocks map is replaced outside construction: entries of builds in flight are not in the new map (unless every one of them is carried over under the mutex, which this rule does not try to establish)", nil)
+								}
+							}
+						}
+					}
 				}
 			}
 			if target == nil {
